@@ -60,7 +60,7 @@ def _rel(pid, key, mode, what, nq=3000, nt=2800000):
 
 _rel("C03", "c03", "c03", "pairs of frames (0-8 rows, sometimes up to 30) sharing key column k with keys from a collision-rich "
      "alphabet mixing nil/int/int64/float/string/bool, 0-3 payload columns each, all four join kinds, 1-3 joins")
-_rel("C06", "c06", "c06", "frames of 0-40 rows (25% exactly two rows, which reveals Less(1,0)), 1-3 columns of one kind each with many "
+_rel("C06", ["c06", "c02"], "c06", "frames of 0-40 rows (25% exactly two rows, which reveals Less(1,0)), 1-3 columns of one kind each with many "
      "ties and nils, 0-2 sort columns incl. unknown ones, both directions")
 _rel("C07", ["c07", "c02"], "c07", "frames whose columns draw from alphabets built to collide under a non-injective key "
      "(x|b:y, nil vs \"nil\", 1 vs \"1\", int vs int64), all Keep values incl. invalid, subsets incl. unknown, both Inplace values, interleaved with in-place edits of receiver and result (without Inplace the result must be a new frame)")
